@@ -214,11 +214,103 @@ func mutate(m *c.ModSpec, rng *c.Rng) ([]byte, string) { return mutateBin(m.Enco
 // mutateBin: m is nil for modules of the second generator (operators that need the ModSpec are replaced)
 func mutateBin(bin []byte, m *c.ModSpec, rng *c.Rng) ([]byte, string) {
 	secs := splitSections(bin)
-	op := rng.Intn(16)
+	op := rng.Intn(18)
 	if m == nil && op == 14 {
 		op = 3 + rng.Intn(6)
 	}
 	switch op {
+	case 16, 17: // an immediate byte of a function body re-encoded as a longer (non-canonical) LEB128 of the same value, sizes kept consistent
+		k := pickSec(secs, rng, 10)
+		if secs[k].id != 10 {
+			return bin, "noop"
+		}
+		b := secs[k].body
+		cnt, n0 := readU32(b)
+		if cnt == 0 {
+			return bin, "noop"
+		}
+		// a random entry; half of the time one that contains a bulk-memory / table instruction (0xfc prefix), if any
+		want := rng.Intn(int(cnt))
+		if rng.Bool() {
+			var with []int
+			o := n0
+			for e := 0; e < int(cnt) && o < len(b); e++ {
+				sz, n := readU32(b[o:])
+				end := o + n + int(sz)
+				if end > len(b) {
+					break
+				}
+				for i := o + n; i+1 < end; i++ {
+					if b[i] == 0xfc && b[i+1] >= 0x08 && b[i+1] <= 0x0b {
+						with = append(with, e)
+						break
+					}
+				}
+				o = end
+			}
+			if len(with) > 0 {
+				want = with[rng.Intn(len(with))]
+			}
+		}
+		off := n0
+		for e := 0; e < want && off < len(b); e++ {
+			sz, n := readU32(b[off:])
+			off += n + int(sz)
+		}
+		if off >= len(b) {
+			return bin, "noop"
+		}
+		sz, n1 := readU32(b[off:])
+		if off+n1+int(sz) > len(b) || sz < 3 {
+			return bin, "noop"
+		}
+		entry := b[off+n1 : off+n1+int(sz)]
+		var zeros, smalls []int
+		for i := 1; i < len(entry)-1; i++ {
+			if entry[i] == 0 {
+				zeros = append(zeros, i)
+			}
+			if entry[i] < 0x40 {
+				smalls = append(smalls, i)
+			}
+		}
+		// reserved bytes / index immediates of memory.size, memory.grow, memory.init/copy/fill, table.* and call_indirect
+		var reserved []int
+		for i := 1; i+2 < len(entry); i++ {
+			switch {
+			case (entry[i] == 0x3f || entry[i] == 0x40) && entry[i+1] == 0:
+				reserved = append(reserved, i+1)
+			case entry[i] == 0xfc && entry[i+1] >= 0x08 && entry[i+1] <= 0x11:
+				for j := i + 2; j < i+4 && j < len(entry)-1; j++ {
+					if entry[j] < 0x40 {
+						reserved = append(reserved, j)
+					}
+				}
+			case entry[i] == 0x11 && entry[i+2] < 0x40:
+				reserved = append(reserved, i+2)
+			}
+		}
+		pos := smalls
+		what := "small"
+		if len(zeros) > 0 && rng.Intn(3) != 0 {
+			pos, what = zeros, "zero"
+		}
+		if len(reserved) > 0 && rng.Intn(4) != 0 {
+			pos, what = reserved, "reserved"
+		}
+		if len(pos) == 0 {
+			return bin, "noop"
+		}
+		q := pos[rng.Intn(len(pos))]
+		extra := 1 + rng.Intn(4)
+		wide := []byte{entry[q] | 0x80}
+		for i := 1; i < extra; i++ {
+			wide = append(wide, 0x80)
+		}
+		wide = append(wide, 0x00)
+		ne := c.Cat(entry[:q], wide, entry[q+1:])
+		secs[k].body = c.Cat(b[:off], c.U32(uint32(len(ne))), ne, b[off+n1+int(sz):])
+		return join(secs), fmt.Sprintf("leb-widen(%s,%d)", what, extra+1)
 	case 0: // declared section size off
 		k := rng.Intn(len(secs))
 		n := int64(len(secs[k].body))
